@@ -515,6 +515,11 @@ func (g *gen) tpStmt(tp *Ty, ptrResult bool) string {
 			g.feat("tparam_core_make")
 			return v() + " = make(" + tp.Name + pick(g, "mkarg", "", ", 1") + ifSlice(c.Terms[0]) + ")"
 		}},
+		{c.Core && len(c.Terms) == 1 && c.Terms[0].kind() == KArray && c.Terms[0].u().Elem == tInt && g.include("sa5012-typeparam-array-length"), func() string {
+			g.feat("tparam_array_slice_variadic")
+			g.needExoHelpers()
+			return "exoPairs(" + v() + pick(g, "arrslice", "[:]", "[1:]", "[:2]") + "...)"
+		}},
 		{len(c.Methods) > 0, func() string {
 			g.feat("tparam_method")
 			return "_ = " + pick(g, "tpmeth", x()+".String()", x()+".String", tp.Name+".String", "fmt.Stringer("+x()+")")
